@@ -42,6 +42,15 @@ FIXED = [
 ]
 
 OPEN = [
+    {'id': 'K02', 'property': 'C11', 'status': 'open', 'check': 'value', 'api': 'dtw_ndim.warping_paths', 'engine': 'c',
+     'match': {'psi_end': True, 'window_lt_full': True},
+     'what': 'C warping_paths scans the relaxed last column/row of the compact array without regard to the band, so with a window smaller than '
+             'the series and psi end-relaxation it can take an out-of-band cell as end point: warping_paths_fast([1.5,0],[1.5,1.5,1.5],window=1,psi=1) = 0.0, expected 1.5',
+     'witness': {'s1': [[1.5], [0.0]], 's2': [[1.5], [1.5], [1.5]], 'ndim': 1, 'window': 1, 'psi': 1}},
+    {'id': 'K01', 'property': 'C11', 'status': 'open', 'check': 'path', 'api': None, 'engine': None, 'match': {'psi_end': True},
+     'what': 'warping path traced under psi end-relaxation can stop outside the relaxed corner or skip the chosen end row/column '
+             '(both engines; best_path does not know psi and follows ties/-1 marks diagonally): dtw.warping_path([0,0],[0,1],psi=(0,0,0,1)) = [(0,0)]',
+     'witness': {'s1': [[0.0], [0.0]], 's2': [[0.0], [1.5]], 'ndim': 1, 'psi': [0, 0, 0, 1]}},
     # {id, property, status:'open', check, api, engine, match:{}, what, witness}
 ]
 
